@@ -19,6 +19,9 @@ from .c06 import mode_val
 from .c07 import ctx_val
 
 PROP = 'C10'
+# the two historical defect regions are excluded / split off only while they are still LISTED as findings in known_findings.json;
+# once repaired (entries moved to `fixed`) the regions are checked like everything else
+KNOWN_IDS = set(f['id'] for f in H.load_known_findings('C10'))
 MODES = spec.MODES
 ENTRIES = ['sqrt_with_context', 'ref_sqrt_with_context', 'ref_sqrt_abs', 'ref_sqrt_copysign']
 
@@ -106,8 +109,11 @@ def run_sqrt(entry, nd, scale, p, mode, sign):
         # root's discarded digits are all zero or exactly one half while the root is not exact
         region_b = z3.And(z3.Not(exact), z3.Or(rem == 0, 2 * rem == 10 ** k))
         m.labels.add('rounds the root')
-        obl.append(('value is sqrt(x) rounded to p digits under the mode', z3.And(wrong_val, z3.Not(region_b))))
-        obl.append(('KNOWN:sticky', z3.And(wrong_val, region_b)))
+        if 'C10-sticky' in KNOWN_IDS:
+            obl.append(('value is sqrt(x) rounded to p digits under the mode', z3.And(wrong_val, z3.Not(region_b))))
+            obl.append(('KNOWN:sticky', z3.And(wrong_val, region_b)))
+        else:
+            obl.append(('value is sqrt(x) rounded to p digits under the mode', wrong_val))
         if neg_result:
             obl.append(('copysign variant carries the sign', ri > 0))
         else:
@@ -203,11 +209,11 @@ def main(tier):
     tasks = []
     for p in ps:
         w = 2 * (p + 5)
-        nds = sorted(set([1, 2, 3, 4, 5, w - 3, w - 2, w - 1, w, w + 2, w + 4]))
+        nds = sorted(set([1, 2, 3, 4, 5, w - 3, w - 2, w - 1, w, w + 1, w + 2, w + 3, w + 4]))
         if tier == 'thorough':
             nds = sorted(set(list(range(1, w + 5))))
         for nd in nds:
-            if nd > w and nd % 2 == 1:
+            if nd > w and nd % 2 == 1 and 'C10-parity' in KNOWN_IDS:
                 continue            # known finding (a): parity defect region, excluded (its witness is replayed below)
             for scale in (range(-3, 4) if tier == 'quick' else range(-7, 8)):
                 for mode in MODES:
@@ -219,7 +225,8 @@ def main(tier):
         for (nd, scale, mode) in [(2, 1, 'HalfEven'), (3, 0, 'Up'), (1, -1, 'Floor')]:
             tasks.append({'entry': 'sqrt_with_context', 'nd': nd, 'scale': scale, 'p': 100, 'mode': mode, 'sign': 1})
     # parity region probe: the check must still SEE the defect there (vacuity guard for the exclusion)
-    tasks.append({'entry': 'sqrt_with_context', 'nd': 2 * (1 + 5) + 1, 'scale': 0, 'p': 1, 'mode': 'Down', 'sign': 1, 'probe': 'parity'})
+    if 'C10-parity' in KNOWN_IDS:
+        tasks.append({'entry': 'sqrt_with_context', 'nd': 2 * (1 + 5) + 1, 'scale': 0, 'p': 1, 'mode': 'Down', 'sign': 1, 'probe': 'parity'})
     # reference variants, negative inputs, zero
     for entry in ENTRIES:
         for sign in (1, -1):
@@ -233,7 +240,7 @@ def main(tier):
                   'scale': '-2..2 (quick) / -7..7 (thorough)', 'modes': MODES, 'entries': ENTRIES}
     rep.assumptions = ['BigUint::sqrt contract: fresh r within the integer-sqrt bounds of the digit-count range of N, free Boolean for r*r == N (the square relation is NOT encoded)',
                        'digit counting / == / get_rounding_term by contract (C18, C02, C07)', 'BigDecimal / 4.0 and the HalfEven rounding of the scale term are executed on concrete numbers']
-    rep.outside = ['num-bigint sqrt itself', 'p beyond the listed values', 'the two known-finding regions (recorded in known_findings.json)']
+    rep.outside = ['num-bigint sqrt itself', 'p beyond the listed values'] + (['the known-finding regions still listed in known_findings.json: %s' % sorted(KNOWN_IDS)] if KNOWN_IDS else [])
     sys.stderr.write('[C10] %d tasks\n' % len(tasks))
     results = H.run_parallel(tasks, worker, progress=100)
     rep.add(results)
@@ -276,8 +283,10 @@ def in_known_region(x, scale, p):
     import math
     nd = len(str(x))
     w = 2 * (p + 5)
-    if nd > w and nd % 2 == 1:
+    if nd > w and nd % 2 == 1 and 'C10-parity' in KNOWN_IDS:
         return True
+    if 'C10-sticky' not in KNOWN_IDS:
+        return False
     e = max(w - nd, 0) + ((nd - scale) % 2)
     N = x * 10 ** e
     r = math.isqrt(N)
